@@ -122,6 +122,7 @@ class SimFS:
       eio_open : which open of that path gets the eio fault (1 = first, 2 = second,
                  0 = every open)
       eacces   : open raises PermissionError
+      alt_from_open2 : bytes (latin-1 text) served instead from the second open on
     image values of None create a *directory* of that name.
     """
 
@@ -198,7 +199,15 @@ class SimFS:
         which = plan.pop("eio_open", 0)
         if which not in (0, n):
             plan.pop("eio_at", None)
-        raw = SimRaw(self.image[key], file, plan, self.stats)
+        data = self.image[key]
+        alt = plan.pop("alt_from_open2", None)
+        if alt is not None and n >= 2:
+            # the file was rewritten between two opens of the same path (FortranFileReader
+            # opens a path once to read it and once more to detect the source form)
+            data = alt.encode("latin-1") if isinstance(alt, str) else bytes(alt)
+            self.stats["faults"]["changed_between_opens"] = \
+                self.stats["faults"].get("changed_between_opens", 0) + 1
+        raw = SimRaw(data, file, plan, self.stats)
         self.raw_streams.append(raw)
         if "b" in mode:
             return io.BufferedReader(raw)
